@@ -112,7 +112,13 @@ def check_sheet_names(ctx: CheckContext, p: Program, r: Resolver, rule: str = "B
                 ctx.ob(rule + "-CHARS", f"{sanit.qualname}:{norm_stmt(n)}", f"{sanit.module.relpath}:{n.lineno}", ok,
                        "" if ok else "sanitiser can return the raw argument or a literal with forbidden characters")
     # ---- length proof for the allocator
-    sl = StrLen(alloc.node, where=alloc.loc)
+    constants = {}
+    for nm, b in m.ns.items():
+        if b.kind == "var" and b.target[0] == m.name and isinstance(b.target[2], ast.Constant) and isinstance(b.target[2].value, int) \
+                and not isinstance(b.target[2].value, bool):
+            constants[nm] = b.target[2].value
+    helpers = {nm: fx.node for nm, fx in m.funcs.items() if fx is not alloc and fx is not sanit}
+    sl = StrLen(alloc.node, where=alloc.loc, constants=constants, helpers=helpers)
     rets = sl.run()
     if not rets:
         raise AnalysisError(f"{alloc.loc}: allocator has no analysable return")
@@ -120,35 +126,63 @@ def check_sheet_names(ctx: CheckContext, p: Program, r: Resolver, rule: str = "B
         ok = ub <= MAXLEN
         ctx.ob(rule + "-LEN", f"{alloc.qualname}:{norm_stmt(ret)}", f"{alloc.module.relpath}:{ret.lineno}", ok,
                "" if ok else f"returned sheet name can be {ub if ub < INF else 'unboundedly'} characters long (> {MAXLEN})", bound=ub)
-    # the truncated text is the sanitised text: the first assignment from the sanitiser feeds every returned value
-    # ---- uniqueness discipline: each `return v` sits in `if v not in used:` after `used.add(v)`
-    def walk_blocks(stmts):
-        for st in stmts:
-            yield st, stmts
-            for fld in ("body", "orelse"):
-                sub = getattr(st, fld, None)
-                if isinstance(sub, list) and sub and isinstance(sub[0], ast.stmt):
-                    yield from walk_blocks(sub)
-    parents = {}
-    for st, blk in walk_blocks(alloc.node.body):
-        for fld in ("body", "orelse"):
-            for ch in getattr(st, fld, []) if isinstance(getattr(st, fld, None), list) else []:
-                parents[id(ch)] = st
-    for ret, _ in rets:
-        v = ret.value.id if isinstance(ret.value, ast.Name) else None
-        par = parents.get(id(ret))
-        ok = False
-        if v and isinstance(par, ast.If) and ret in par.body:
-            t = par.test
-            tested = isinstance(t, ast.Compare) and len(t.ops) == 1 and isinstance(t.ops[0], ast.NotIn) and isinstance(t.left, ast.Name) \
-                and t.left.id == v and isinstance(t.comparators[0], ast.Name) and t.comparators[0].id == used_param
-            added = any(isinstance(s2, ast.Expr) and isinstance(s2.value, ast.Call) and isinstance(s2.value.func, ast.Attribute)
-                        and s2.value.func.attr == "add" and isinstance(s2.value.func.value, ast.Name) and s2.value.func.value.id == used_param
-                        and len(s2.value.args) == 1 and isinstance(s2.value.args[0], ast.Name) and s2.value.args[0].id == v
-                        for s2 in par.body[:par.body.index(ret)])
-            ok = tested and added
+    # ---- uniqueness discipline: on every path to `return v`, v was tested absent from `used` (enclosing `if v not in used`
+    #      or a preceding `while v in used` loop) and then recorded with used.add(v), with no rebinding in between
+    from ..core.flow import Flow
+
+    class _Uniq(Flow):
+        def __init__(self):
+            self.rets = []
+
+        def copy(self, s):
+            return dict(s)
+
+        def join(self, a, b):
+            return {k: (a.get(k, (False, False))[0] and b.get(k, (False, False))[0], a.get(k, (False, False))[1] and b.get(k, (False, False))[1])
+                    for k in set(a) | set(b)}
+
+        def _absent_test(self, test):
+            if isinstance(test, ast.Compare) and len(test.ops) == 1 and isinstance(test.left, ast.Name) and isinstance(test.comparators[0], ast.Name) \
+                    and test.comparators[0].id == used_param:
+                if isinstance(test.ops[0], ast.NotIn):
+                    return test.left.id, True
+                if isinstance(test.ops[0], ast.In):
+                    return test.left.id, False
+            return None
+
+        def branch(self, test, s):
+            t, f_ = dict(s), dict(s)
+            at = self._absent_test(test)
+            if at is not None:
+                v, absent_on_true = at
+                (t if absent_on_true else f_)[v] = (True, False)
+            return t, f_
+
+        def transfer(self, st, s):
+            s = dict(s)
+            if isinstance(st, ast.Assign):
+                for tg in st.targets:
+                    for n in ast.walk(tg):
+                        if isinstance(n, ast.Name):
+                            s[n.id] = (False, False)
+            elif isinstance(st, ast.AugAssign) and isinstance(st.target, ast.Name):
+                s[st.target.id] = (False, False)
+            elif isinstance(st, ast.Expr) and isinstance(st.value, ast.Call) and isinstance(st.value.func, ast.Attribute) and st.value.func.attr == "add" \
+                    and isinstance(st.value.func.value, ast.Name) and st.value.func.value.id == used_param and len(st.value.args) == 1 \
+                    and isinstance(st.value.args[0], ast.Name):
+                v = st.value.args[0].id
+                if s.get(v, (False, False))[0]:
+                    s[v] = (True, True)
+            elif isinstance(st, ast.Return):
+                v = st.value.id if isinstance(st.value, ast.Name) else None
+                self.rets.append((st, bool(v) and s.get(v, (False, False)) == (True, True)))
+            return s
+
+    uf = _Uniq()
+    uf.run(alloc.node, {})
+    for ret, ok in uf.rets:
         ctx.ob(rule + "-UNIQ", f"{alloc.qualname}:{norm_stmt(ret)}", f"{alloc.module.relpath}:{ret.lineno}", ok,
-               "" if ok else "a sheet name is returned without having been tested `not in used` and recorded in `used`")
+               "" if ok else "a sheet name is returned without having been tested absent from `used` and recorded in `used` on every path")
     # ---- call sites: every sheet_name= in the module; the used set is created once per workbook
     n_sites = 0
     for f in m.funcs.values():
